@@ -35,6 +35,21 @@ SHAPES_Q = ["leftrec", "rightrec", "midrec", "ambig-binop", "ambig-concat", "nul
             "lex-a-aa", "lex-prefix", "hidden-right"]
 
 
+PRIO = {
+    "prio-tail": ("S: S a | S C | b;", {"C": ["s", "c"]}, {"C": " {5}"}),
+    "prio-two": ("S: a T | a; T: b | C | T C;", {"C": ["s", "c"]}, {"C": " {5}"}),
+}
+
+
+def prio_spec(nm):
+    from vp.gspec import parse_short
+
+    text, terms, meta = PRIO[nm]
+    g = parse_short(text, terms={k: tuple(v) for k, v in terms.items()}, name=nm)
+    g.meta["term_meta"] = meta
+    return g
+
+
 def acyclic(gs):
     return [g for g in gs if not g.is_cyclic()]
 
@@ -59,6 +74,12 @@ def cases(tier, seed):
         out.append(_case(g, "lr", True, N))
         out.append(_case(g, "glr", False, N))
         out.append(_case(g, "glr", True, N))
+    for nm in PRIO:
+        g = prio_spec(nm)
+        for mode, ld in (("lr", True), ("glr", False)):
+            c = _case(g, mode, ld, N)
+            c["params"]["prio"] = nm
+            out.append(c)
     tw = _case(corpus.shape("leftrec"), "glr", False, 3)
     tw["name"] = "twin:" + tw["name"]
     tw["params"]["twin"] = True
@@ -73,13 +94,15 @@ def _case(g, mode, ld, N):
 
 
 def build(params, symbolic):
-    spec = spec_from_params(params)
+    spec = prio_spec(params["prio"]) if params.get("prio") else spec_from_params(params)
     if spec.is_cyclic():
         raise Skip("cyclic grammar")
     N, K, mode, ld = params["N"], params["K"], params["mode"], params["ld"]
     twin = params.get("twin")
     texts = [v for _, v in spec.terms.values()]
     no_overlap = all(len(t) == 1 for t in texts) and len(set(texts)) == len(texts)
+    # (terminal priorities only order the scan among terminals that match at one position; with non-overlapping
+    #  terminals they must not change which prefixes are found)
     try:
         with build_guard(20):
             if mode == "lr":
